@@ -94,6 +94,7 @@ class MergeModel(object):
                         raise Inconclusive('_Merger: one object returned at two positions')
         if not self.ret_paths:
             raise Inconclusive('_Merger.__iter__: no returning path')
+        self.raise_paths = [p for p in self.paths if p.status == 'raise']
         for i in (0, 1, 3, 5):
             if i not in self.out_objs.values():
                 raise Inconclusive('_Merger: output position %d is not a fresh container' % i)
@@ -258,7 +259,7 @@ class MergeModel(object):
                 g = self.interp.obj_init[t]
                 req = self._required_filter(g)
                 if req is not None:
-                    return (('some_required', req), pol)
+                    return ((req[0], req[1]), pol)
             if t[0] == 'C' and t[1] == 'all' and len(t[2]) == 1 and t[2][0] in self.star_lists():
                 return (('all', self.star_lists()[t[2][0]]), pol)
             if t[0] == 'S' and t[1] in self.star_lists() and t[2][0] == 'K':
@@ -300,8 +301,8 @@ class MergeModel(object):
             return None
         if g[2] != ('E', it, lid):
             return None
-        if len(conds) == 1 and conds[0][0] == 'lit' and conds[0][1] == ('has_default', ('E', it, lid)) and conds[0][2] is False:
-            return self.limbo[src]
+        if len(conds) == 1 and conds[0][0] == 'lit' and conds[0][1] == ('has_default', ('E', it, lid)):
+            return ('some_required' if conds[0][2] is False else 'some_defaulted', self.limbo[src])
         return None
 
     def star_lists(self):
@@ -321,10 +322,11 @@ class MergeModel(object):
         return out
 
     # -- canonical effects -----------------------------------------------------
-    def canon_effects(self, effects, lits=()):
-        """flatten the effects of a per-parameter path into canonical records"""
+    def canon_effects(self, effects, lits=(), toplevel=False):
+        """flatten the effects of a per-parameter path into canonical records;
+        toplevel=True: effects inside loop regions are left to those regions"""
         out = []
-        for e, g in walk_effects(effects):
+        for e, g in ([(x, ()) for x in effects] if toplevel else walk_effects(effects)):
             nested = bool(g)
             if e.kind == 'mut':
                 tgt = e.target
